@@ -1673,3 +1673,8 @@ V("C11", "benign_slot_search_named_missing", "benign", None, (Z, """            
                 missing = new_param is None or not hasattr(new_param, slot)
                 if missing:
                     continue"""))
+
+V("C09", "resolve_accessor_clears_method_on_operand", "fire", "R09.k", (R, """        new = self._clone(copy=True)
+        new._method = None
+        return new._clone(operation)""", """        self._method = None
+        return self._clone(operation)"""))
